@@ -93,9 +93,18 @@ def drive(rec):
             kw = {"covalent_radii": radii}
             ckw = {"covalent_radii": radii}
         graph, props = cr.unit_cell_connectivity(**ckw)
+        # a bond is the unordered pair: an implementation may list it once (lower index first, as documented) or in both
+        # directions with opposite translations - the same edge; two listings that disagree stay two (and fail the count)
+        seen = set()
         for (i, j), cell in props.items():
             c = [int(round(float(x))) for x in cell]
-            t["edges"].append([int(i) + 1, int(j) + 1, c])
+            i, j = int(i), int(j)
+            if i > j:
+                i, j, c = j, i, [-x for x in c]
+            if (i, j, tuple(c)) in seen:
+                continue
+            seen.add((i, j, tuple(c)))
+            t["edges"].append([i + 1, j + 1, c])
     except Exception as e:
         t["exc_conn"] = type(e).__name__
         return t
